@@ -92,11 +92,11 @@ func (v pathValue) Int() int {
 	return v.iv
 }
 
-func (v pathValue) Int32() int32 {
+func (v pathValue) Int32() (int32, bool) {
 	if v.iv > math.MaxInt32 || v.iv < math.MinInt32 {
-		panic("integer overflow")
+		return 0, false
 	}
-	return int32(v.iv)
+	return int32(v.iv), true
 }
 
 type pathToken struct {
@@ -354,7 +354,9 @@ func (cur *FieldMask) GetPath(desc *thrift_reflection.TypeDescriptor, path strin
 
 			var f *thrift_reflection.FieldDescriptor
 			if typ == pathTypeLitInt {
-				f = st.GetFieldById(tok.val.Int32())
+				if id, ok := tok.val.Int32(); ok {
+					f = st.GetFieldById(id)
+				}
 				if f == nil {
 					return nil, false
 				}
